@@ -113,6 +113,10 @@ func recacheAggregatorContext(ctx sdk.Context, agc *aggregator.AggregatorContext
 		agc.PrepareRoundEndBlock(uint64(to - 1))
 	} else {
 		prev := int64(0)
+		// the message log does not record nonces; the price filter drops a message whose nonce it has
+		// already seen from the same validator, so replayed messages get distinct nonces in their logged
+		// order (the ante handler admitted them as previous+1, one sequence per validator and feeder)
+		replayNonces := make(map[string]int32)
 		for ; from < to; from++ {
 			// fill params
 			for b, p = range recentParamsMap {
@@ -131,10 +135,13 @@ func recacheAggregatorContext(ctx sdk.Context, agc *aggregator.AggregatorContext
 				for _, msg := range msgs {
 					// these messages are retreived for recache, just skip the validation check and fill the memory cache
 					//nolint
+					nonceKey := msg.Validator + "/" + strconv.FormatUint(msg.FeederID, 10)
+					replayNonces[nonceKey]++
 					agc.FillPrice(&types.MsgCreatePrice{
 						Creator:  msg.Validator,
 						FeederID: msg.FeederID,
 						Prices:   msg.PSources,
+						Nonce:    replayNonces[nonceKey],
 					})
 				}
 			}
